@@ -73,6 +73,9 @@ type RunResult struct {
 	Truncated   bool         `json:"truncated"`
 	Unknowns    int          `json:"feasibility_unknowns"`
 	Observed    []string     `json:"observed,omitempty"`
+	Notes       []string     `json:"notes,omitempty"`
+	Sampled     int          `json:"sizes_sampled"`
+	SizeCapped  int          `json:"sizes_capped"`
 }
 type Output struct {
 	LoadS   float64      `json:"load_s"`
@@ -389,6 +392,11 @@ func (e *Engine) runHarness(f *ssa.Function, label string, iargs []int64, maxPat
 	}
 	rr.Unknowns = e.Unknowns
 	rr.Observed = e.observed
+	rr.Sampled, rr.SizeCapped = e.sampled, e.sizeCapped
+	for k := range e.notes {
+		rr.Notes = append(rr.Notes, k)
+	}
+	sort.Strings(rr.Notes)
 	var tags []string
 	for t := range e.obl {
 		tags = append(tags, t)
